@@ -65,6 +65,7 @@ type TxShape struct {
 	// FailKind selects the recorded error of a failed transaction: 0 = InstructionError(0, Custom(7)),
 	// 1 = InstructionError(0, InvalidAccountData) (an instruction error without payload),
 	// 2 = InsufficientFundsForFee (a transaction error without payload)
+	// 3 = an error kind unknown to the server's decoder (the transaction failed all the same)
 	FailKind int `json:"fail_kind,omitempty"`
 	// MetaGarbage: the stored metadata is bytes that are neither protobuf nor bincode status metadata
 	MetaGarbage bool         `json:"meta_garbage,omitempty"`
@@ -566,6 +567,8 @@ func (g *gen) tx(ts TxShape, slot uint64, pos, blockIdx, counter int) TxTruth {
 				meta.Err.Err = []byte{8, 0, 0, 0, 0, 3, 0, 0, 0} // InstructionError(0, InvalidAccountData)
 			case 2:
 				meta.Err.Err = []byte{4, 0, 0, 0} // InsufficientFundsForFee
+			case 3:
+				meta.Err.Err = []byte{0xfe, 0xff, 0x00, 0x00, 0x01} // a transaction error this server's tables do not know
 			}
 		}
 		for _, l := range ts.Loaded {
